@@ -175,3 +175,9 @@ Proof.
   destruct (chain s) as [|head rest]; [reflexivity|]. cbv zeta.
   rewrite !andthen_assoc. reflexivity.
 Qed.
+
+(* ---- start-up: the genesis block is appended only with a verifying signature *)
+Lemma start_needs_signature g s : start_node g = Some s -> b_sig_ok g = true /\ s = init_state g.
+Proof. unfold start_node. destruct (b_sig_ok g); intros H; inversion H; auto. Qed.
+Lemma start_refused g : b_sig_ok g = false -> start_node g = None.
+Proof. unfold start_node. intros H. rewrite H. reflexivity. Qed.
